@@ -484,6 +484,9 @@ func (in *Interp) strEq(a, b Str) Value {
 		}
 		return boolVal(in.tt.And(conj...))
 	}
+	if r, ok := in.alignEq(a, b); ok {
+		return r
+	}
 	// length disequality shortcut is left to the solver (lengths are tied)
 	eq := in.tt.Eq(a.SeqTerm(in.tt), b.SeqTerm(in.tt))
 	// help the solver: equal sequences have equal BV lengths
@@ -539,6 +542,61 @@ func (in *Interp) strByte(s Str, i int) Value {
 		}
 	}
 	return in.tt.SeqNth(s.SeqTerm(in.tt), in.tt.IntConst(int64(i)))
+}
+
+// alignEq decides a == b structurally when both are built from the same atoms
+// in the same order and the byte runs between the atoms have pairwise equal
+// (concrete) lengths: then a == b iff the runs are bytewise equal.
+func (in *Interp) alignEq(a, b Str) (Value, bool) {
+	type seg struct {
+		run  []Value
+		atom *Term
+	}
+	split := func(s Str) []seg {
+		var out []seg
+		cur := seg{}
+		for _, p := range s.p {
+			switch p.k {
+			case pkBytes:
+				for i := 0; i < len(p.b); i++ {
+					cur.run = append(cur.run, Int(p.b[i]))
+				}
+			case pkUnit:
+				cur.run = append(cur.run, p.t)
+			case pkAtom:
+				cur.atom = p.t
+				out = append(out, cur)
+				cur = seg{}
+			}
+		}
+		out = append(out, cur)
+		return out
+	}
+	sa, sb := split(a), split(b)
+	if len(sa) != len(sb) {
+		return nil, false
+	}
+	for i := range sa {
+		if sa[i].atom != sb[i].atom || len(sa[i].run) != len(sb[i].run) {
+			return nil, false
+		}
+	}
+	conj := []*Term{}
+	for i := range sa {
+		for j := range sa[i].run {
+			x, y := sa[i].run[j], sb[i].run[j]
+			xi, xc := x.(Int)
+			yi, yc := y.(Int)
+			if xc && yc {
+				if xi != yi {
+					return false, true
+				}
+				continue
+			}
+			conj = append(conj, in.tt.Eq(in.byteTerm(x), in.byteTerm(y)))
+		}
+	}
+	return boolVal(in.tt.And(conj...)), true
 }
 
 func (in *Interp) byteTerm(v Value) *Term {
